@@ -27,7 +27,9 @@ RULE = (
     '(separators ",", ", ", " , ") of 1-3 name patterns from a small regex '
     'grammar (literal prefix from {hpc,desk,ab,a,x} + parts [0-9] \\d [12] '
     '. .* (a|b) literals, quantifiers {2} {1,3} {2,} + ?; top-level "|"), '
-    'with 0-3 hosts from h1..h5, selection method random / definition '
+    'with 0-3 distinct hosts from h1..h5 (in 1 of 4 non-empty lists 1-2 '
+    'entries are repeated at random positions, e.g. "h1, h1, h2"), '
+    'selection method random / definition '
     'order; 0-2 platform groups over resolvable member names; then 1-6 '
     'queries (a name instantiated from / mutated from the patterns, a '
     'group name or localhost; a bad-host subset biased to cover all hosts '
@@ -37,7 +39,9 @@ RULE = (
     'passed to platform_from_name(platforms=...). Oracle: harness splits '
     'comma lists itself (commas inside {..} are not separators), '
     're.fullmatch per alternative, last definition wins; host/group '
-    'selection by set arithmetic. Non-trivial = some query name matches '
+    'selection by set arithmetic over the DISTINCT hosts of each list (a '
+    'platform is unusable iff every distinct host is bad, however often a '
+    'host is listed). Non-trivial = some query name matches '
     '>=2 definitions with different host lists, or some bad-host set '
     'removes some but not all hosts of the resolved platform / some but '
     'not all members of a group; distinct by (config, queries).')
@@ -51,6 +55,8 @@ ASSUMPTIONS = [
     '(option documentation in cfgspec/globalcfg.py).',
     'random.seed is set from the case so that random selection is '
     'replayable.',
+    'A hosts list that repeats a host is a valid configuration (string '
+    'list; no validator rejects it) and denotes the same set of hosts.',
     'Multi-host platforms get "job runner = slurm" (background/at are '
     'rejected for multi-host platforms by validate_platforms).',
 ]
@@ -135,6 +141,12 @@ def cases(draw):
         nh = draw(st.sampled_from([0, 1, 1, 2, 2, 3]))
         hosts = draw(st.lists(st.sampled_from(HOSTS), min_size=nh,
                               max_size=nh, unique=True))
+        if hosts and draw(st.integers(0, 3)) == 0:
+            # a hosts list may name a host more than once (a valid string
+            # list; weights "random" selection towards that host)
+            for _r in range(draw(st.sampled_from([1, 1, 2]))):
+                hosts.insert(draw(st.integers(0, len(hosts))),
+                             draw(st.sampled_from(hosts)))
         headers.append({
             'alts': alts, 'sep': sep, 'hosts': hosts,
             'method': draw(st.sampled_from(
@@ -200,12 +212,13 @@ def cases(draw):
             # every host of the targeted platform (+ maybe one more)
             bad = sorted(set(thosts) | set(draw(st.lists(
                 st.sampled_from(allhosts), max_size=1))))
-        elif bk <= 7 and thosts and len(thosts) > 1:
-            # some but not all hosts of the targeted platform
-            keep = draw(st.integers(0, len(thosts) - 1))
+        elif bk <= 7 and thosts and len(set(thosts)) > 1:
+            # some but not all (distinct) hosts of the targeted platform
+            dhosts = sorted(set(thosts))
+            keep = draw(st.integers(0, len(dhosts) - 1))
             bad = sorted(set(
-                h for i, h in enumerate(thosts)
-                if i != keep and draw(st.booleans())) or {thosts[keep - 1]})
+                h for i, h in enumerate(dhosts)
+                if i != keep and draw(st.booleans())) or {dhosts[keep - 1]})
         else:
             bad = sorted(set(draw(st.lists(
                 st.sampled_from(allhosts), min_size=1, max_size=4))))
@@ -303,6 +316,7 @@ def model(case, q, naive=False):
                 'partial': False}
     usable = {}
     methods = {}
+    dup_dead = False
     for m in grp['members']:
         r = resolve_platform(defs, m)
         if r == 'bad-regex':
@@ -315,12 +329,15 @@ def model(case, q, naive=False):
         if not bad or (set(r[0]) - bad):
             usable[m] = r[0]
             methods[m] = r[1]
+        elif len(set(r[0])) < len(r[0]):
+            # hosts list with a repeated entry, every distinct host bad
+            dup_dead = True
     if not usable:
-        return {'err': 'NoPlatformsError'}
+        return {'err': 'NoPlatformsError', 'dup_dead': dup_dead}
     first = next(m for m in grp['members'] if m in usable)
     return {'allowed': usable,
             'first': first if (grp['method'] == 'definition order') else None,
-            'method': methods, 'multi': False,
+            'method': methods, 'multi': False, 'dup_dead': dup_dead,
             'partial': len(usable) < len(grp['members'])}
 
 
@@ -415,6 +432,9 @@ def check_case(case, ctx: Ctx) -> CaseResult:
             classes.add('comma-list-header')
         if case['groups']:
             classes.add('has-groups')
+        if any(len(set(h['hosts'])) < len(h['hosts'])
+               for h in case['headers']):
+            classes.add('hosts-list-repeats-a-host')
 
         for q in case['queries']:
             bad = None if q['bad'] is None else set(q['bad'])
@@ -454,6 +474,8 @@ def check_case(case, ctx: Ctx) -> CaseResult:
             if exp.get('partial'):
                 classes.add('group-partially-unusable')
                 nontrivial = True
+            if exp.get('dup_dead'):
+                classes.add('group-member-with-repeated-host-all-unreachable')
             if 'err' in exp:
                 classes.add('expect-' + exp['err'])
 
